@@ -170,7 +170,9 @@ def run(ctx):
                 "stakes; stake, unstake (partial, all, down to the minimum +-1), withdraw, allegation + votes, release, absent signers, "
                 "byzantine evidence, two-day time jumps, Frankenstein change of the staking options) plus directed histories (duplicate key, "
                 "all unstake, stake-then-unstake, early freeze, freeze by missed votes or guilty verdict -> wait past the release time -> RELEASE -> "
-                "8+ quiet blocks, with a twin replica restarted after the release); distinct = distinct (table, options, malicious, last-active, purge) inputs; "
+                "8+ quiet blocks, with a twin replica restarted after the release; a validator leaving the election by unstake / verdict / "
+                "out-staking while every block ends with a transaction refused by Validate); a third of all blocks of all histories end "
+                "with a Validate-refused transaction (bad signature, fee below minimum, stake of more than owned); distinct = distinct (table, options, malicious, last-active, purge) inputs; "
                 "validator-set cases = random sets and change lists against the real tendermint ValidatorSet",
         "traces_validated_against_impl": len(cases), "histories": shards * n,
         "validator_set_cases": len(tcases), "validator_set_accepted": sum(1 for t in tcases if t["ok"]),
@@ -193,6 +195,9 @@ def run(ctx):
         "blocks_with_frozen_validator_in_votes_window": sum(1 for c in cases if c["frozen"] and c["height"] <= c["bvd"]),
         "negative_power_monitor[0 ok,1 negative]": hist(k[6] for k in codes),
         "unstake_more_than_record_refused": sum(1 for c in cases for t in (c.get("txs") or []) if "exceeds the stake" in t),
+        "blocks_ending_with_validate_refused_tx": hist(c["last_refused"] for c in cases if c.get("last_refused")),
+        "blocks_ending_with_validate_refused_tx_and_purge": sum(1 for c in cases if c.get("last_refused") and any(u["v"] == 0 for u in c["ups"])),
+        "blocks_ending_with_validate_refused_tx_and_election_change": sum(1 for c in cases if c.get("last_refused") and c["quiet"] == 1 and c["height"] > 2),
         "releases_executed": sum(len(c.get("released") or []) for c in cases),
         "released_validators_re_elected": released_reelected(cases),
         "freezes_by_missed_votes_or_verdict_blocks": sum(1 for c in cases if c["mal"]),
